@@ -123,7 +123,7 @@ theorem KidsOK.parent {s : Bool} {v v' : Value} {ks : List HTree} (h : KidsOK s 
 
 /-! ### Inserting one child -/
 
-theorem rank_le_two (c : Category) : c.rank ≤ 2 := by cases c <;> simp [Category.rank]
+theorem fi_rank_le_two (c : Category) : c.rank ≤ 2 := by cases c <;> simp [Category.rank]
 
 /-- Insert `t` between `l` and `r`. -/
 theorem KidsOK.insert {s : Bool} {v : Value} {l r : List HTree} {t : HTree}
@@ -199,14 +199,14 @@ theorem kidAllowed_leaf {v : Value} (he : v.isElement = false) (hd : v.isDocumen
     ∀ x, kidAllowed v x = false := by
   intro x; cases v <;> simp_all [kidAllowed, Value.isElement, Value.isDocument]
 
-theorem kids_nil_of_valid {s : Bool} {t : HTree} (hv : validTree s t = true)
+theorem fi_kids_nil_of_valid {s : Bool} {t : HTree} (hv : validTree s t = true)
     (he : t.value.isElement = false) (hd : t.value.isDocument = false) : t.kids = [] := by
   rw [validTree_eq, Bool.and_eq_true] at hv
   exact kids_nil_of_kidsOK (kidAllowed_leaf he hd) hv.1
 
 theorem kids_nil_of_text {s : Bool} {t : HTree} (hv : validTree s t = true)
     (ht : t.value.isText = true) : t.kids = [] := by
-  apply kids_nil_of_valid hv <;> cases h : t.value <;> simp_all [Value.isText, Value.isElement, Value.isDocument]
+  apply fi_kids_nil_of_valid hv <;> cases h : t.value <;> simp_all [Value.isText, Value.isElement, Value.isDocument]
 
 /-- A parent in a valid forest is an element or a document. -/
 theorem parent_kind_of_kidsOK {s : Bool} {v : Value} {k : HTree} {ks : List HTree}
@@ -219,14 +219,14 @@ theorem validTree_setValue {s : Bool} {t : HTree} {v' : Value} (hv : validTree s
     (ha : ∀ x, kidAllowed v' x = kidAllowed t.value x) : validTree s (t.setValue v') = true := by
   cases t with
   | node h v ks =>
-    simp only [HTree.setValue, validTree_node, Bool.and_eq_true] at hv ⊢
+    simp only [HTree.setValue, fi_validTree_node, Bool.and_eq_true] at hv ⊢
     exact ⟨(kidsOK_iff _ _ _).mpr (((kidsOK_iff _ _ _).mp hv.1).parent ha), hv.2⟩
 
-@[simp] theorem setValue_handle (t : HTree) (v : Value) : (t.setValue v).handle = t.handle := by
+@[simp] theorem fi_setValue_handle (t : HTree) (v : Value) : (t.setValue v).handle = t.handle := by
   cases t; rfl
-@[simp] theorem setValue_value (t : HTree) (v : Value) : (t.setValue v).value = v := by
+@[simp] theorem fi_setValue_value (t : HTree) (v : Value) : (t.setValue v).value = v := by
   cases t; rfl
-@[simp] theorem setValue_kids (t : HTree) (v : Value) : (t.setValue v).kids = t.kids := by
+@[simp] theorem fi_setValue_kids (t : HTree) (v : Value) : (t.setValue v).kids = t.kids := by
   cases t; rfl
 @[simp] theorem setKids_handle (t : HTree) (ks : List HTree) : (t.setKids ks).handle = t.handle := by
   cases t; rfl
